@@ -251,9 +251,10 @@ class State:
 
 
 class ExcInfo:
-    __slots__ = ('type', 'site', 'chain', 'why', 'primitive')
+    __slots__ = ('type', 'site', 'chain', 'why', 'primitive', 'in_handler')
 
     def __init__(self, type_, site, chain, why, primitive=False):
+        self.in_handler = False
         self.type = type_  # ClassInfo or Ext
         self.site = site  # 'pamqp/x.py:LINE'
         self.chain = chain  # tuple of function shorts, outermost first
@@ -1028,6 +1029,7 @@ class Interp:
             self.eval(st.cause, state, frame)
         exc = ExcInfo(etype, self.site(st), self.chain(),
                       'explicit raise', primitive=False)
+        exc.in_handler = bool(frame.handling)
         return [Outcome('raise', state, exc=exc)]
 
     def exception_type_of(self, node, state, frame):
